@@ -23,7 +23,9 @@ MethodsOf(part, k) == SelectSeq(part.methods, LAMBDA m : m.kind = k)
 (*   wname    `rename = ".."`: the name the message is written and read under, instead of the one derived from the method *)
 (*   aliases  `alias = ".."`: further names the message is read under                                                     *)
 (* (fields present only on the methods that carry such attributes)                                                        *)
+(*   wser     `rename(serialize = "..")`: the name the message is *written* under only; it is still read under its other names   *)
 WName(m) == IF "wname" \in DOMAIN m THEN m.wname ELSE Wire(m.name)
+SerName(m) == IF "wser" \in DOMAIN m THEN m.wser ELSE WName(m)        \* the name the message serialises under
 Aliases(m) == IF "aliases" \in DOMAIN m THEN m.aliases ELSE <<>>
 AcceptC(m) == {WName(m)} \cup Range(Aliases(m))           \* every name the part's decoder takes for this message
 (* the names under which a part exposes messages of kind k *)
@@ -33,7 +35,7 @@ WireNames(part, k) == {Str(n) : n \in UNION {AcceptC(m) : m \in Range(MethodsOf(
 OwnersIn(part, k, key) == {m \in Range(MethodsOf(part, k)) : key \in {Str(n) : n \in AcceptC(m)}}
 
 (* the list each part publishes (`<ep>_messages()`): the names its messages *serialise* under, sorted in byte order, duplicate free *)
-NameListC(part, k) == SetToSortSeq({WName(m) : m \in Range(MethodsOf(part, k))}, NameLess)
+NameListC(part, k) == SetToSortSeq({SerName(m) : m \in Range(MethodsOf(part, k))}, NameLess)
 NameList(part, k)  == [i \in 1..Len(NameListC(part, k)) |-> Str(NameListC(part, k)[i])]
 
 (* rustc, not sylvia, rejects two variants of one enum with the same identifier:    *)
@@ -86,7 +88,7 @@ NameHash(n) == NameHashFrom(n, 1)
 
 ElabMethod(m, code) ==
     [name |-> Str(m.name), name_c |-> m.name, kind |-> m.kind, args |-> m.args, outcome |-> m.outcome,
-     code |-> code, h |-> NameHash(m.name), variant |-> Str(Variant(m.name)), wire |-> Str(WName(m)),
+     code |-> code, h |-> NameHash(m.name), variant |-> Str(Variant(m.name)), wire |-> Str(WName(m)), ser |-> Str(SerName(m)),
      aliases |-> [i \in 1..Len(Aliases(m)) |-> Str(Aliases(m)[i])], renamed |-> "wname" \in DOMAIN m,
      near |-> Str(Near(m.name)), shape_name |-> IsShapeName(m.name), ctxkind |-> m.ctxkind, resp |-> m.resp, explicit |-> m.explicit, sig |-> m.sig, ret |-> m.ret]
 ElabPart(part, base) ==
@@ -158,7 +160,7 @@ ArgNames(m) == [i \in 1..Len(m.args) |-> m.args[i].n]
 IsMsgJson(j, m, argvals) ==
     IF m.kind \in EnumKinds
     THEN /\ IsObj(j) /\ Len(j.f) = 1
-         /\ j.f[1].k = Str(WName(m))
+         /\ j.f[1].k = Str(SerName(m))
          /\ IsObjOf(j.f[1].v, ArgNames(m), argvals)
     ELSE IsObjOf(j, ArgNames(m), argvals)
 
@@ -166,7 +168,7 @@ IsMsgJson(j, m, argvals) ==
 IsMsgJsonE(j, m, argvals) ==
     IF m.kind \in EnumKinds
     THEN /\ IsObj(j) /\ Len(j.f) = 1
-         /\ j.f[1].k = m.wire
+         /\ j.f[1].k = m.ser
          /\ IsObjOf(j.f[1].v, ArgNames(m), argvals)
     ELSE IsObjOf(j, ArgNames(m), argvals)
 =============================================================================
